@@ -52,9 +52,11 @@ def agree(m, n, **kw):
     """gap degree > 0  <=>  bracket writer refuses  <=>  extracted grammar is not context-free"""
     ip, lp = e1_get(kw, m, n)
     nodes, leaves = build_e1(m, n, ip, lp)
-    ref = max(len(runs(cover(x))) - 1 for x in nodes) > 0
-    if (treeanalysis.gap_degree(nodes[0]) > 0) != ref:
-        return "gap_degree > 0 is %r" % (not ref)
+    refdeg = max(len(runs(cover(x))) - 1 for x in nodes)
+    ref = refdeg > 0
+    got = treeanalysis.gap_degree(nodes[0])
+    if got != refdeg:
+        return "gap_degree of the tree is %r, the maximum over its nodes is %r" % (got, refdeg)
     out = stubs.Sink()
     refused = False
     try:
@@ -68,6 +70,40 @@ def agree(m, n, **kw):
     if grammaranalysis.is_contextfree(g) == ref:
         return "is_contextfree %r, discontinuous: %r" % (not ref, ref)
     return ""
+
+
+def after(m, n, **kw):
+    """the analysis agrees with the set-based definition also on a tree that was analysed before and then transformed
+    (head marking, boyd_split, raising): every node, before and after each step"""
+    from trees import transform
+    ip, lp = e1_get(kw, m, n)
+    nodes, leaves = build_e1(m, n, ip, lp)
+    root = nodes[0]
+
+    def check(what):
+        best = 0
+        for x in all_nodes(root):
+            if not x.children:
+                continue
+            rs = runs(cover(x))
+            if treeanalysis.gap_degree_node(x) != len(rs) - 1:
+                return "%s: gap_degree_node(%s) = %r, runs %d" % (what, x.data['label'], treeanalysis.gap_degree_node(x), len(rs))
+            if [[t.data['num'] for t in b] for b in trees.terminal_blocks(x)] != rs:
+                return "%s: terminal_blocks(%s) differ from the runs" % (what, x.data['label'])
+            best = max(best, len(rs) - 1)
+        if treeanalysis.gap_degree(root) != best:
+            return "%s: gap_degree %r, maximum over nodes %r" % (what, treeanalysis.gap_degree(root), best)
+        return ""
+    r = check("fresh tree")
+    if r:
+        return r
+    root = transform.negra_mark_heads(root)
+    root = transform.boyd_split(root)
+    r = check("after boyd_split")
+    if r:
+        return r
+    root = transform.raising(root)
+    return check("after raising")
 
 
 def _args(src, task):
@@ -159,10 +195,17 @@ def conds(tier):
         cs.append(Cond("gaps-m%d-n%d" % (mmax, n), "harness.c16:gaps", [P("sk", "int", 0, ns)] + pos_params(n),
                        fixed={"mmax": mmax, "n": n}, pre=[distinct_expr(n)], shard=["sk"], timeout=to,
                        functions=FUNCS[:3], note="%d skeletons; positions arbitrary distinct ints" % ns))
-    for (m, n) in ([(2, 3), (3, 3), (3, 4)] if q else [(2, 3), (3, 3), (3, 4), (4, 4), (3, 5)]):
+    for (m, n) in ([(2, 3), (3, 3), (3, 4), (2, 5), (3, 5)] if q else [(2, 3), (3, 3), (3, 4), (4, 4), (2, 5), (3, 5)]):
         cs.append(Cond("agree-m%d-n%d" % (m, n), "harness.c16:agree", e1_params(m, n), fixed={"m": m, "n": n},
-                       pre=[e1_wf_expr(m, n)], shard=["lp1"] if m * n >= 12 else [], timeout=600 if q else 3000,
-                       functions=FUNCS[0:2] + FUNCS[7:]))
+                       pre=[e1_wf_expr(m, n)], shard=(["lp1"] if m * n >= 12 else []) + (["lp2"] if m * n >= 15 else []),
+                       timeout=600 if q else 3000, functions=FUNCS[0:2] + FUNCS[7:]))
+        if (m, n) in ((3, 3), (3, 4), (2, 5)) or not q:
+            cs.append(Cond("after-m%d-n%d" % (m, n), "harness.c16:after", e1_params(m, n), fixed={"m": m, "n": n},
+                           pre=[e1_wf_expr(m, n)], shard=(["lp1"] if m * n >= 12 else []) + (["lp2"] if m * n >= 15 else []),
+                           timeout=600 if q else 3000, functions=FUNCS[:3] + ["transform.boyd_split", "transform.raising"],
+                           note="analysis before and after transformations of the same tree"))
+    for (m, n) in ([] if q else []):
+        pass
         cs.append(Cond("order-m%d-n%d" % (m, n), "harness.c16:order", e1_params(m, n) + [P("mode", "int", 0, 2)],
                        fixed={"m": m, "n": n}, pre=[e1_wf_expr(m, n), e1_wf_expr(m, n).replace("_h.wf", "_h.binarized")], shard=["mode"] + (["lp1"] if m * n >= 12 else []),
                        timeout=600 if q else 3000, functions=FUNCS[5:7]))
